@@ -216,4 +216,29 @@ theorem seq_of_parse_map {b kvs r} (h : parse b = some (.map kvs, r)) :
       exact ⟨n, r0, hh, parseSeq_of_parseN _ (2*n) r0 ys r' hp⟩
     · cases h
 
+/-! ### a linear-time `parseSeq` for compiled code
+
+`parseSeq` gives every element its own fuel `2·|rest| + 2`, i.e. it measures the rest of the input once per
+element: quadratic on a stream of thousands of small entries.  `parseSeqFast` measures once and is proved equal,
+so the compiler may use it wherever `parseSeq` is called (`@[csimp]`: a kernel-checked replacement, no trust added). -/
+
+def parseSeqFast (n : Nat) (b : Bytes) : Option (Objs × Bytes) := parseN (2 * b.length + 3) n b
+
+theorem parseSeq_eq_fast (n : Nat) (b : Bytes) : parseSeq n b = parseSeqFast n b := by
+  unfold parseSeqFast
+  cases h : parseSeq n b with
+  | some res =>
+    obtain ⟨os, r⟩ := res
+    exact (parseN_of_seq n b os r h _ (by omega)).symm
+  | none =>
+    cases h2 : parseN (2 * b.length + 3) n b with
+    | none => rfl
+    | some res =>
+      obtain ⟨os, r⟩ := res
+      rw [parseSeq_of_parseN _ n b os r h2] at h
+      cases h
+
+@[csimp] theorem parseSeq_csimp : @parseSeq = @parseSeqFast := by
+  funext n b; exact parseSeq_eq_fast n b
+
 end FV
